@@ -17,6 +17,7 @@ var registry = map[string]func(*core.Run){
 	"C10": checks.C10,
 	"C11": checks.C11,
 	"C13": checks.C13,
+	"C14": checks.C14,
 	"C16": checks.C16,
 	"C06": checks.C06,
 	"C07": checks.C07,
